@@ -23,10 +23,19 @@ import (
 	"verif/instr"
 )
 
-const (
-	verifRoot = "/verif"
-	repoRoot  = "/repo"
-)
+const verifRoot = "/verif"
+
+// repoRoot is /repo; VERIF_REPO points the driver at another checkout of the library (used only to
+// evaluate seeded changes in scratch worktrees without touching /repo: the module replacement is
+// redirected with -modfile and no evidence file is written).
+var repoRoot = func() string {
+	if r := os.Getenv("VERIF_REPO"); r != "" {
+		return r
+	}
+	return "/repo"
+}()
+
+func altRepo() bool { return repoRoot != "/repo" }
 
 type cfg struct {
 	id        string
@@ -108,6 +117,12 @@ func build(c *cfg, scratch string, race bool) (string, map[string]int, error) {
 	if race {
 		bin += ".race"
 		args = []string{"build", "-race", "-tags", "verif", "-overlay", ov, "-o", bin}
+	}
+	if altRepo() {
+		mod := filepath.Join(scratch, "alt.mod")
+		os.WriteFile(mod, []byte("module verif\n\ngo 1.23\n\nrequire github.com/ossrs/go-oryx-lib v0.0.0\n\nreplace github.com/ossrs/go-oryx-lib => "+repoRoot+"\n"), 0644)
+		os.WriteFile(filepath.Join(scratch, "alt.sum"), nil, 0644)
+		args = append(args, "-modfile", mod)
 	}
 	args = append(args, "./"+c.pkg)
 	cmd := exec.Command("go", args...)
@@ -451,7 +466,11 @@ func runCheck(id, tier string, workersOverride int, keep bool) int {
 	}
 	eb, _ := json.MarshalIndent(ev, "", " ")
 	os.MkdirAll(filepath.Join(verifRoot, "evidence"), 0755)
-	if err := os.WriteFile(filepath.Join(verifRoot, "evidence", id+".json"), eb, 0644); err != nil {
+	evPath := filepath.Join(verifRoot, "evidence", id+".json")
+	if altRepo() {
+		evPath = filepath.Join(scratch, id+".evidence.json") // not evidence: a run against another checkout
+	}
+	if err := os.WriteFile(evPath, eb, 0644); err != nil {
 		fmt.Fprintf(os.Stderr, "ENGINE-ERROR property=%s %v\n", id, err)
 		return exit(2)
 	}
